@@ -13,6 +13,9 @@ inline Alpha randAlpha(Rng& g, int maxRank = 2, int minSyms = 2, int maxSyms = 5
 {
 	Alpha al; int ns = g.range(minSyms, maxSyms);
 	for (int i = 0; i < ns; ++i) al.rank.push_back(i == 0 ? 0 : g.range(0, maxRank));
+	// a fifth of the alphabets: one symbol one rank wider than asked for (ranks 3-4: tuples with
+	// non-adjacent repeated states, more than two sibling positions)
+	if (ns >= 2 && g.chance(1, 5)) al.rank[1 + g.below(ns - 1)] = maxRank + 1;
 	return al;
 }
 inline Alpha sigma0() { Alpha al; al.rank = {0, 0, 1, 2}; return al; } // a/0 b/0 f/1 g/2
